@@ -1,11 +1,16 @@
 """C09  Reclaimed (batch/mid) capacity is never over-promised  (family Reclaim).
 
 MC     MC_Reclaim / MC_ReclaimMid: the algorithm transcription satisfies every property-level predicate and is monotone
-       over a small exhaustive input domain.
+       over a small exhaustive input domain (incl. pods being deleted and NUMA annotation ids the node does not have).
+       MC_ReclaimRecon: the node writer (with its hysteresis) withdraws what is published whenever the NodeMetric is
+       missing / never updated / expired, whatever was published before.
 Go     batchresource.TestVerifC09 / midresource.TestVerifC09Mid: enumerated input table + seeded random inputs, each a
        chain  calc, raise, raise, ...  executed on the real Plugin.Calculate.
+       noderesource.TestVerifC09Reconcile: lives of one node under the real NodeResourceReconciler.Reconcile on a fake
+       API server (publish, NodeMetric deleted / expired / never updated, koordlet back, pods arrive / are deleted).
 Trace  ReclaimTrace: every recorded output must satisfy BatchOutOK / MidOutOK for its input, every raise must not raise
-       a published amount.
+       a published amount; after every reconcile the node object must satisfy PubOK (withdrawn when the metric is
+       missing or stale, bounded when it is fresh).
 """
 
 
@@ -42,6 +47,22 @@ def sig(fl):
     seg, idx = fl["segment"], fl["fail_index"]
     e = fl["event"]
     op = e.get("op")
+    if op == "recon":
+        # reconciler level: which kind of NodeMetric the reconcile saw, and whether the node still publishes something
+        i, o = e.get("inp", {}), e.get("out", {})
+        if i.get("nm") == "missing":
+            nm = "missing"
+        elif i.get("age", 0) < 0:
+            nm = "never-updated"
+        elif i.get("age", 0) > i.get("degrade", 0) * 60:
+            nm = "expired"
+        else:
+            nm = "fresh"
+        try:
+            pub = any(o[sd][r]["has"] and o[sd][r]["q"] != 0 for sd in ("alloc", "cap") for r in ("cpu", "mem"))
+        except Exception:
+            pub = None
+        return "op=recon nodemetric=%s node-publishes=%s" % (nm, {True: "yes", False: "no"}.get(pub, "?"))
     inp = None
     for ev in seg[:idx + 1]:
         if ev.get("op") in ("calc", "mcalc"):
@@ -71,9 +92,21 @@ def sig(fl):
                     return "op=%s kind=request-policy-ignores-system-usage-above-reservation" % op
     except Exception:
         pass
+    # structural features of the input (labels only): a high-priority pod that is being deleted, an annotation NUMA id
+    # the node does not have
+    feats = []
+    try:
+        if any(hp(p) and p["phase"] in ("Running", "Pending") and p.get("term") for p in inp["pods"]):
+            feats.append("hp-pod-being-deleted")
+        nz = len(inp.get("zones") or [])
+        if nz and any(hp(p) and any(n < 0 or n >= nz for n in (p.get("numa") or [])) for p in inp["pods"]):
+            feats.append("numa-id-not-on-node")
+    except Exception:
+        pass
+    tail = (" features=" + ",".join(feats)) if feats else ""
     if nomet:
-        return "op=%s kind=hp-pod-without-metric-under-maxUsageRequest" % op
-    return "op=%s kind=other" % op
+        return "op=%s kind=hp-pod-without-metric-under-maxUsageRequest%s" % (op, tail)
+    return "op=%s kind=other%s" % (op, tail)
 
 
 CONF = {
@@ -83,17 +116,21 @@ CONF = {
         {"module": "MC_Reclaim", "cfg": {"quick": None, "thorough": "MC_thorough.cfg"}, "timeout": 2400},
         {"module": "MC_Reclaim", "cfg": {"quick": None, "thorough": "MC_pairs.cfg"}, "timeout": 1800},
         {"module": "MC_ReclaimMid", "cfg": {"quick": "MC_mid_quick.cfg", "thorough": "MC_mid_thorough.cfg"}, "timeout": 1800},
+        {"module": "MC_ReclaimRecon", "cfg": {"quick": "MC_recon.cfg", "thorough": "MC_recon.cfg"}, "timeout": 600},
     ],
     "go": [
         {"pkg": "pkg/slo-controller/noderesource/plugins/batchresource", "test": "TestVerifC09", "uses_script": False},
         {"pkg": "pkg/slo-controller/noderesource/plugins/midresource", "test": "TestVerifC09Mid", "uses_script": False},
+        {"pkg": "pkg/slo-controller/noderesource", "test": "TestVerifC09Reconcile", "uses_script": False},
     ],
     "trace": {"module": "ReclaimTrace", "cfg": "Trace.cfg", "timeout": 2400, "chunk_events": 250000},
     "signature": sig,
-    "rule": "segments = chains (calc, raise*) of real Plugin.Calculate executions; distinct by content hash, "
-            "non-trivial = at least one checked calculation after the reset",
+    "rule": "segments = chains (calc, raise*) of real Plugin.Calculate executions, and chains (recon*) of real "
+            "NodeResourceReconciler.Reconcile executions on one node; distinct by content hash, "
+            "non-trivial = at least one checked calculation / reconcile after the reset",
     "trusted_base": ["TLC (tla2tools in /opt/veriftools)", "k8s.io/utils/clock/testing fake clock injected through the packages' Clock / clk variables",
                      "c09Client stub (answers the NodeResourceTopology Get of calculateOnNUMALevel, nothing else)",
+                     "controller-runtime fake client + the package's FakeCfgCache / plugin registration fixtures (reconciler level)",
                      "projection functions in /verif/harness (field reads only)"],
     "assumptions": [
         "policy 'request' (memory only) is bounded with the node reservation as system term (documented formula, pinned by "
@@ -101,12 +138,24 @@ CONF = {
         "cpu policies: default/usage/maxUsageRequest ('request' is not supported for cpu and not generated)",
         "an LSE pod with metrics is charged its cpu REQUEST under policy usage (LSE does not lend cpu)",
         "a terminated pod that still reports usage, and a metric without a listed pod, are charged by the metric's priority at usage",
+        "a pod counts until its phase is Succeeded/Failed: a pod that is being deleted (deletionTimestamp set, phase "
+        "Running/Pending) is charged exactly like any other pod (no predicate reads the `term` attribute)",
         "reclaim thresholds 0..100; the safety margin may be 1 unit below the exact product only when that product is an "
         "integer and the ratio is not a multiple of 1/4 (float truncation), see Reclaim!MarginLo; no other tolerance",
         "every pod carries an explicit QoS label; host applications carry an explicit priority; NUMA ids in pod annotations "
-        "are distinct and < number of zones; at most 4 zones",
+        "are distinct; ids the node does not have (negative or >= number of zones) bind the pod nowhere: the pod is charged "
+        "1/k in each of the k EXISTING zones it lists, 1/Z everywhere when it lists none; at most 4 zones",
         "all magnitudes < 2^31 (memory in scaled units); 64-bit magnitudes are not exercised",
         "staleness is decided on whole seconds with an injected fake clock",
-        "observation point: ResourceItems returned by Plugin.Calculate (not what NodeResource/NRT writers do with them)",
+        "observation point: ResourceItems returned by Plugin.Calculate; at the reconciler level batch-cpu / batch-memory in "
+        "node.status.allocatable and .capacity after NodeResourceReconciler.Reconcile (NRT zone writer and mid resources "
+        "are not observed there: midresource's clock cannot be injected from package noderesource)",
+        "reconciler level: 'withdrawn' = resource absent from the node or zero; a missing NodeMetric object counts as stale; "
+        "the upper bounds are demanded of the node object only when it must carry the last calculation (first reconcile of "
+        "the controller instance, resourceDiffThreshold 0, or nothing published before) - in between the node writer may keep "
+        "a value within resourceDiffThreshold of the new one (hysteresis, not part of the statement); only non-negativity then",
+        "reconciler level: no API faults, no NodeResourceTopology object, updateTimeThresholdSeconds 300, colocation enabled; "
+        "under memory policy 'request' the generator keeps system usage within the node reservation (the recorded "
+        "request-policy finding is reported by the Calculate-level driver only)",
     ],
 }
